@@ -274,6 +274,9 @@ func nonTrivial(c Case) bool {
 func labels(c Case) []string {
 	l := []string{"kind:" + c.Kind}
 	if c.Kind == "termination" {
+		if len(c.Frags) > 9 {
+			l = append(l, "more than nine fragments")
+		}
 		return l
 	}
 	frags := c.Frags
@@ -556,6 +559,15 @@ func genGoldenGateFor(t *rapid.T, forced ...int) Case {
 func genTermination(t *rapid.T) Case {
 	tailLen := rapid.IntRange(1, 3).Draw(t, "tail")
 	cycleLen := rapid.IntRange(1, 4).Draw(t, "cycle")
+	// one pool in four has a long cycle or a long tail: "every finite pool" - how many fragments lie on the cycle, or
+	// before it, is no reason not to return
+	switch rapid.IntRange(0, 7).Draw(t, "long") {
+	case 0:
+		cycleLen = rapid.IntRange(5, 20).Draw(t, "cycle_long")
+	case 1:
+		tailLen = rapid.IntRange(4, 12).Draw(t, "tail_long")
+		cycleLen = rapid.SampledFrom([]int{1, 2, 7, 8, 9, 10, 15, 16, 17}).Draw(t, "cycle_edge")
+	}
 	os := overhangs(t, tailLen+cycleLen, 4)
 	c := Case{Kind: "termination"}
 	ins := func(nm string) string { return word(t, nm, rapid.IntRange(0, 8).Draw(t, nm+"_len"), "ACGT") }
